@@ -6,6 +6,30 @@ ALL = ["C%02d" % i for i in range(1, 21)]
 
 # id -> (category, technique, level text, level note, design ref)
 CHECKS = {
+ "C03": ("exploration", "runtime monitor in a chroot jail: hostile packet scripts sent over real pipes to a receiver process; before/after snapshot (inode, mode, owner, mtime, ctime, bytes, xattrs) of everything outside dest; independent stream specification decides which scripts are malformed and which entries must not have been applied",
+         "Generated hostile scripts (every malformation class the statement lists, at every position of a valid STAT sequence) against destinations full of outward symlinks, in normal/merge/metadata-only mode. Containment is checked on every script (also when the receiver crashes), rejection and not-applied-after-offence on malformed ones. Held on the executions observed.",
+         "Trusts chroot(2) and the snapshot walker; single attacker (the peer), no concurrent local attacker; receiver crash counts as a failed call.", "DESIGN.md §5 C03, §4.6"),
+ "C04": ("fault_enumeration", "fault injection at every operation index of a fixed transfer + structural quiescence detector (goroutine stack sampling) for termination and leaks + C01 oracle for false success + follow-up clean transfer; SIGKILL of a receiver process over real pipes",
+         "For a fixed 12-entry transfer every operation index of every fault class is enumerated (stream send/recv error and EOF on both endpoints, cancellation of either context, walk error, read error at 5 offsets, hasher/notify error, SIGKILL of the receiver after k packets), plus sampled faults with >132 requests pending. Termination is decided structurally (teardown once, quiescence afterwards = violation), never by a timer. Held on the fault runs observed; plans whose operation was never reached are reported as not fired.",
+         "fsutil uses no timers (a quiescent process cannot progress on its own); teardown = both directions fail + both contexts cancelled; Open errors and receiver-side disk errors are not injected.", "DESIGN.md §5 C04, §4.7"),
+ "C06": ("exploration", "online protocol monitor: an independent reference receiver (written from the protocol text) drives the real Send with request scripts and checks every emitted packet; progress callbacks recorded",
+         "Source views x request scripts (any subset/order, bursts >132, requests racing the STAT stream, duplicate/unknown/non-file ids) x stream capacities and delays; STAT sequence compared with the independent snapshot, DATA reassembled per id and compared with the file bytes. Held on the sessions observed.",
+         "Trusts the reference receiver (refrecv.go) to be conforming; ids are zero-based STAT positions per receive.go's header.", "DESIGN.md §5 C06, §4.4"),
+ "C07": ("exploration", "online protocol monitor: an independent reference sender announces synthetic STAT sequences to the real Receive with seeded chunkings/interleavings; REQ/FIN ordering decided on the receiver-side event log; dest bytes read at the instant FIN arrives",
+         "STAT sequences x prior destinations x DATA chunkings (1 B .. 1 MiB) x id interleavings x STAT/DATA races x early close; REQ set compared with the identity model, final dest with the announced tree. Held on the sessions observed.",
+         "Trusts the reference sender (refsend.go) to be conforming; identity model as C02.", "DESIGN.md §5 C07, §4.4"),
+ "C11": ("exploration", "runtime monitor: STAT stream of the real Send over filtered views validated by an independent stream validator (order, parents, link targets), transfer into an empty dest compared with the reference-filtered source with re-canonicalised link groups, every regular file opened through the view",
+         "Trees with link groups straddling included/excluded paths x include/exclude/follow-path configurations x nested filter stacks (reference applied level by level). Known finding K1 triaged as in C10. Held on the executions observed.",
+         "Reference filter as C10; follow-paths resolved by fsutil.FollowLinks itself (C18 checks it).", "DESIGN.md §5 C11"),
+ "C13": ("exploration", "runtime differential monitor: snapshot(src) vs snapshot(dst) after fs.Copy under the statement's mask; option overrides evaluated independently (/bin/chmod for symbolic modes); change notifier calls recorded",
+         "Generated source trees (all types, link groups incl. special files, special bits, owners, ns mtimes, xattrs) x {whole tree, sub-directory, single file, single symlink} x option sets {chown, octal/symbolic mode, utime, xattr error handler, follow-links}. Held on the executions observed.",
+         "Trusts the snapshot walker and /bin/chmod as evaluator of symbolic modes (both GNU and POSIX readings admitted where they differ); root.", "DESIGN.md §5 C13"),
+ "C16": ("exploration", "runtime differential monitor: set of paths written by fs.Copy with include/exclude patterns vs naive reference filter vs fsutil.Walk with the same patterns; metadata of on-demand ancestors compared with the source directory",
+         "The trees and pattern grammar of C10, into empty and populated destinations; K1 triaged as in C10. Held on the executions observed.",
+         "Reference filter as C10.", "DESIGN.md §5 C16"),
+ "C19": ("exploration", "runtime monitor: listing file decoded as little-endian length-prefixed records and compared with the STATs seen on the wire; dest minus listing compared with the projection of the source; REQ ids and notifications checked",
+         "Trees (incl. listings of several 32 KiB chunks and a single stat larger than a chunk) x selectors x sources containing an entry named .fsutil-metadata x prior destinations holding a listing file/symlink/directory. Held on the executions observed.",
+         "Selectors are closed under hard-link sources as the statement requires; identity model as C02.", "DESIGN.md §5 C19"),
  "C01": ("exploration", "runtime monitor: real Send+Receive over an instrumented in-memory stream; independent lstat/readlink/xattr/sha256 snapshot of dest compared with the expected tree (source view, identity-retention and merge-overlay models) under the statement's mask",
          "Thousands of generated (source tree, prior destination, configuration) cases incl. unprivileged receiver, synthetic source, merge mode, dirty destinations; a violation is any demanded field that differs after both calls returned nil. Held on the executions observed.",
          "Trusts the independent snapshot walker (x/sys/unix) and the expectation models in c01.go; Linux, root, tmpfs/ext4 with mknod+xattrs; unprivileged receiver emulated by switching euid/egid.", "DESIGN.md §5 C01"),
